@@ -443,8 +443,10 @@ find_type(CPPScope *current_scope, CPPScope *global_scope,
   if (type != nullptr && _names.back().has_templ()) {
     // This is a template type.
 
-    if (is_fully_specified()) {
-      // If our identifier fully specifies the instantiation, then apply it.
+    if (is_fully_specified() && !type->is_incomplete()) {
+      // If our identifier fully specifies the instantiation, and the template
+      // has been defined (not merely declared, or still being defined: its
+      // members are not known yet), then apply it.
       CPPDeclaration *decl =
         type->instantiate(_names.back().get_templ(),
                           current_scope, global_scope,
